@@ -36,8 +36,11 @@ def countable : Lang → Member → Bool
 
 def countMethods (l : Lang) (ms : List Member) : Nat := (ms.filter (countable l)).length
 
-/-- `count_loc`: Python and Rust skip blank and comment-only lines, TypeScript counts every line -/
-def countLoc (l : Lang) (lines : List LineKind) : Nat :=
+/-- `count_loc`: blank and comment-only lines are skipped in every language (repaired code; before the
+    repair — finding F13a — TypeScript counted the raw span of the class, `countLocOld`) -/
+def countLoc (_l : Lang) (lines : List LineKind) : Nat := (lines.filter (· == .code)).length
+
+def countLocOld (l : Lang) (lines : List LineKind) : Nat :=
   match l with
   | .ts => lines.length
   | _ => (lines.filter (· == .code)).length
